@@ -212,8 +212,8 @@ func CLI(args []string) int {
 	for _, r := range results {
 		status := "ok"
 		if r.Err != nil {
+			// not fatal: what happened is in steps.txt / summary.json and is judged by the model side
 			status = "ERROR " + r.Err.Error()
-			code = 3
 		}
 		fmt.Printf("%-28s %6.1fs %7.2f MB blocks=%-4d problems=%d unmet=%d %s\n", r.Name, r.Seconds, float64(r.Bytes)/1e6, statGet(r.Stats, "blocks"), len(r.Problems), len(r.Unmet), status)
 		for _, p := range r.Problems {
